@@ -739,6 +739,12 @@ func suiteC16(c *Ctx) []Suite {
 		}},
 		{Name: "vars/items", Gen: func(c *Ctx) []Case {
 			var out []Case
+			// text that is no 7-bit ASCII never becomes an A item (its size in bytes and the characters
+			// it prints would differ), neither through the factory nor through a fill
+			for _, s := range []string{"\u00e9", "caf\u00e9", "25\u00b0C", "\u00ff", "\u0080", "a\u00b5b", "\u0100", "\u540d"} {
+				out = append(out, Case{Op: "ctor ascii " + hxs(s), Decisive: true, Nontrivial: true, Tags: []string{"non-ascii-text"}}.fields("vars size bytes"))
+				out = append(out, Case{Op: "fillitem " + (&Node{Kind: "L", Slots: []Slot{{Child: &Node{Kind: "AV", Name: "unit", Min: 0, Max: -1}}}}).Proto() + " | 1 " + hxs("unit") + " " + strTok(s), Decisive: true, Nontrivial: true, Tags: []string{"non-ascii-text"}}.fields("vars size bytes"))
+			}
 			for i := 0; i < c.N(4000); i++ {
 				o := GenOpt{MaxDepth: 4, MaxSlots: 5, PVar: 0.3, PEllipsis: 0.15}
 				if i%5 == 0 {
